@@ -1,8 +1,10 @@
 //go:build verif
 
 // C17 — transactional reads return the newest committed value visible at their
-// timestamp.  Oracle: Percolator reference model (internal/perco); every Get and
-// Scan issued through raftstore/kv.Apply must equal the model's read rule.
+// timestamp.  Histories of prewrite / commit / rollback / resolve-lock /
+// check-txn-status / get / scan requests plus flushes and compactions are
+// executed through raftstore/kv.Apply against a real DB; every Get and Scan must
+// equal the read rule of the Percolator reference model in internal/perco.
 package c17
 
 import (
@@ -15,15 +17,9 @@ import (
 
 func TestMain(m *testing.M) { pbt.RunMain(m) }
 
-func profile() perco.Profile {
-	return perco.Profile{MaxSteps: 28, WRead: 9, WMaint: 4, WDup: 1, WCheck: 1,
-		Excl: perco.Excl{R1: pbt.Open("C17-R1"),
-			R4: pbt.Open("C17-R4"), R5: pbt.Open("C18-R5"), R6: pbt.Open("C19-R6"), R7: pbt.Open("C18-R7") || pbt.Open("C19-R7"),
-			R8: pbt.Open("C17-R8"), F1: pbt.Open("C19-F1"), R3: pbt.Open("C19-R3"), R20: pbt.Open("C19-R20"), F2: pbt.Open("C17-F2"),
-		}}
+func gen(t *rapid.T) perco.GCase {
+	return perco.Generate(t, perco.Profile{MaxSteps: 28, WRead: 9, WMaint: 4, WDup: 1, WCheck: 1, Excl: perco.OpenExclusions()})
 }
-
-func gen(t *rapid.T) perco.GCase { return perco.Generate(t, profile()) }
 
 func run(c perco.GCase, r *pbt.Rec) error {
 	r.Excluded(c.Excl)
@@ -32,8 +28,14 @@ func run(c perco.GCase, r *pbt.Rec) error {
 
 func TestCheck(t *testing.T) {
 	s := &pbt.Suite{ID: "C17", Level: "exploration",
-		Rule: "TODO",
+		Rule: "Generated histories: 1-4 keys, <=5 transactions with put/delete/lock-only mutations (values up to one SST block), start and commit timestamps from one strictly increasing counter (unique, reads use unused even timestamps or a transaction's own start ts), aborted transactions, duplicate/late requests, CheckTxnStatus/ResolveLock, flush / L0->ingest move / ingest merge / ingest drain / compaction picker anywhere; <=28 steps plus closing reads. Oracle: each Get(k,t) and Scan(start,limit,t) answered by kv.Apply equals the reference model: lock error iff a lock with start<=t is on the (first blocked) key, else the value of the newest committed put/delete with commit<=t skipping rollback and lock-only records; Scan must equal the per-key reads, hence Get. Non-trivial = the case contains a read that (a) has a rollback or lock-only record as newest record <=t above an older committed put, or (b) returns a value although a lock with start>t or a commit>t exists on the key (an older snapshot is served); distinct by case content.",
+		Assumptions: []string{
+			"requests are applied one at a time (the raft apply path is sequential); concurrency of apply is C20's subject",
+			"a Scan stops at the first key whose lock blocks it and keeps the pairs collected before it (what handleScan documents by construction); keys after the limit-th pair are not read",
+			"reads never use a commit timestamp as read timestamp (timestamps are unique)",
+			"empty put values are not generated (O-2 in DESIGN)",
+		},
 	}
-	pbt.Add(s, &pbt.Spec[perco.GCase]{Name: "reads", Gen: gen, Run: run, Quick: 4800, Thorough: 320000, Shards: 16})
+	pbt.Add(s, &pbt.Spec[perco.GCase]{Name: "reads", Gen: gen, Run: run, Quick: 1200, Thorough: 48000, Shards: 16})
 	s.Main(t)
 }
